@@ -22,7 +22,7 @@ COMP = Component(
 
 
 def run(prop, tier):
-    return COMP.run(prop, tier, crash_clause='C18.LibraryRaised')
+    return COMP.run(prop, tier, crash_clause='C18.LibraryRaised', floor_clauses=True)
 
 
 def replay(sc):
